@@ -717,8 +717,8 @@ func runTrace(specPath string) int {
 	wf.Close()
 	wb, _ := os.ReadFile(woutPath)
 	res.WriterOut = strings.TrimSpace(string(wb))
-	if len(res.WriterOut) > 600 {
-		res.WriterOut = res.WriterOut[:600]
+	if len(res.WriterOut) > 6000 {
+		res.WriterOut = res.WriterOut[len(res.WriterOut)-6000:] // the end: result and observations of the writer
 	}
 	res.Error = t.fail
 	if res.Error == "" && !res.Completed && !res.Killed {
